@@ -247,6 +247,11 @@ pub struct BatchCfg<'a> {
     pub wall_cap: Duration,
     pub known: &'a [KnownFinding],
     pub samples: usize,
+    /// Called (from a monitor thread) when one run has not returned for
+    /// `hang_after`: the code under test blocks or loops for ever. The
+    /// callback reports and ends the process; it does not return.
+    pub on_hang: Option<&'a (dyn Fn(u64, u64) + Sync)>,
+    pub hang_after: Duration,
 }
 
 #[derive(Default)]
@@ -354,9 +359,34 @@ pub fn run_batch(cfg: &BatchCfg<'_>, f: &RunFn) -> BatchResult {
     let first_hashes: Mutex<BTreeMap<u64, u64>> = Mutex::new(BTreeMap::new());
     let total = Mutex::new(Agg::default());
     let recheck_n: u64 = 32.min(cfg.runs);
+    // per worker: (run index + 1, or 0 when idle; start of that run in ms since `start`)
+    let current: Vec<(AtomicU64, AtomicU64)> =
+        (0..cfg.workers).map(|_| (AtomicU64::new(0), AtomicU64::new(0))).collect();
+    let active = AtomicU64::new(cfg.workers as u64);
 
     std::thread::scope(|s| {
+        if let Some(on_hang) = cfg.on_hang {
+            let current = &current;
+            let active = &active;
+            s.spawn(move || {
+                while active.load(Ordering::SeqCst) > 0 {
+                    std::thread::sleep(Duration::from_millis(200));
+                    let now = start.elapsed().as_millis() as u64;
+                    for (idx, t0) in current.iter() {
+                        let i = idx.load(Ordering::SeqCst);
+                        if i > 0 && now.saturating_sub(t0.load(Ordering::SeqCst)) > cfg.hang_after.as_millis() as u64 {
+                            // still the same run?
+                            if idx.load(Ordering::SeqCst) == i {
+                                on_hang(i - 1, mix(cfg.seed, i - 1));
+                            }
+                        }
+                    }
+                }
+            });
+        }
         for w in 0..cfg.workers {
+            let current = &current;
+            let active = &active;
             let next = &next;
             let stop_at = &stop_at;
             let capped = &capped;
@@ -370,6 +400,7 @@ pub fn run_batch(cfg: &BatchCfg<'_>, f: &RunFn) -> BatchResult {
                 .spawn_scoped(s, move || {
                     let mut agg = Agg::default();
                     loop {
+                        current[w].0.store(0, Ordering::SeqCst);
                         let i = next.fetch_add(1, Ordering::SeqCst);
                         if i >= cfg.runs || i > stop_at.load(Ordering::SeqCst) {
                             break;
@@ -380,6 +411,8 @@ pub fn run_batch(cfg: &BatchCfg<'_>, f: &RunFn) -> BatchResult {
                             break;
                         }
                         let run_seed = mix(cfg.seed, i);
+                        current[w].1.store(start.elapsed().as_millis() as u64, Ordering::SeqCst);
+                        current[w].0.store(i + 1, Ordering::SeqCst);
                         let mut ch = Choices::generate(run_seed);
                         let record = (i as usize) < cfg.samples;
                         let mut rep = RunReport::new(record);
@@ -449,6 +482,8 @@ pub fn run_batch(cfg: &BatchCfg<'_>, f: &RunFn) -> BatchResult {
                         }
                     }
                     total.lock().unwrap().merge(agg);
+                    current[w].0.store(0, Ordering::SeqCst);
+                    active.fetch_sub(1, Ordering::SeqCst);
                 })
                 .expect("spawn worker");
         }
